@@ -230,3 +230,72 @@ Proof. reflexivity. Qed.
 Lemma bind_assoc {A B C} (m : M A) (f : A -> M B) (g : B -> M C) st :
   bindM (bindM m f) g st = bindM m (fun a => bindM (f a) g) st.
 Proof. unfold bindM. destruct (m st) as [st' [a|r]]; reflexivity. Qed.
+
+(* ---------- lists ---------- *)
+Lemma lpush1_call st k v :
+  redis_call st ["lpush"; k; v] =
+    match get_list st k with
+    | None => (st, wrongtype)
+    | Some ol => let l := v :: match ol with Some l => l | None => [] end in
+                 (setval st k (VList l), RInt (Z.of_nat (List.length l)))
+    end.
+Proof. reflexivity. Qed.
+
+Lemma lindex0_call st k :
+  redis_call st ["lindex"; k; "0"] =
+    match get_list st k with
+    | None => (st, wrongtype)
+    | Some None => (st, RNil)
+    | Some (Some l) => (st, bulk_opt (nth_error l 0))
+    end.
+Proof.
+  change (redis_call st ["lindex"; k; "0"]) with (cmd_lindex st [k; "0"]). unfold cmd_lindex.
+  change (parse_ll "0") with (Some 0%Z). destruct (get_list st k) as [[l|]|]; reflexivity.
+Qed.
+
+Lemma firstn_slice0 {A} (l : list A) c : slice l 0 c = firstn (Z.to_nat c) l.
+Proof. reflexivity. Qed.
+
+Lemma ltrim_keep st k l x n :
+  getk st k = Some (mkKey (VList l) x) -> l <> [] -> (n < 9223372036854775808)%N ->
+  redis_call st ["ltrim"; k; "0"; dec n] = (setval st k (VList (firstn (S (N.to_nat n)) l)), RStatus "OK").
+Proof.
+  intros Hk Hne Hn. change (redis_call st ["ltrim"; k; "0"; dec n]) with (cmd_ltrim st [k; "0"; dec n]).
+  unfold cmd_ltrim. change (parse_ll "0") with (Some 0%Z). rewrite parse_ll_dec by assumption.
+  rewrite (get_list_some _ _ _ _ Hk). unfold norm_range. cbn [Z.ltb Z.compare].
+  assert (Hlen : (0 < Z.of_nat (List.length l))%Z) by (destruct l; [congruence|cbn [List.length]; lia]).
+  replace (Z.of_N n <? 0)%Z with false by (symmetry; apply Z.ltb_ge; lia).
+  replace (Z.of_N n <? 0)%Z with false by (symmetry; apply Z.ltb_ge; lia).
+  replace (Z.of_nat (List.length l) <=? 0)%Z with false by (symmetry; apply Z.leb_gt; lia).
+  rewrite orb_false_r. cbn [orb].
+  destruct (Z.of_nat (List.length l) <=? Z.of_N n)%Z eqn:E.
+  - apply Z.leb_le in E. rewrite firstn_slice0.
+    replace (Z.to_nat (Z.of_nat (List.length l) - 1 - 0 + 1)) with (List.length l) by lia.
+    rewrite firstn_all. rewrite firstn_all2 by lia.
+    destruct l; [congruence|reflexivity].
+  - apply Z.leb_gt in E. rewrite firstn_slice0.
+    replace (Z.to_nat (Z.of_N n - 0 + 1)) with (S (N.to_nat n)) by lia.
+    destruct l as [|a l]; [congruence|]. reflexivity.
+Qed.
+
+Lemma lrange_all st k l x :
+  getk st k = Some (mkKey (VList l) x) -> redis_call st ["lrange"; k; "0"; "-1"] = (st, RArr (map RBulk l)).
+Proof.
+  intros Hk. change (redis_call st ["lrange"; k; "0"; "-1"]) with (cmd_lrange st [k; "0"; "-1"]).
+  unfold cmd_lrange. change (parse_ll "0") with (Some 0%Z). change (parse_ll "-1") with (Some (-1)%Z).
+  rewrite (get_list_some _ _ _ _ Hk). unfold norm_range. cbn [Z.ltb Z.compare].
+  destruct l as [|a l]; [reflexivity|].
+  replace (Z.of_nat (List.length (a :: l)) + -1 <? 0)%Z with false by (symmetry; apply Z.ltb_ge; cbn [List.length]; lia).
+  replace (Z.of_nat (List.length (a :: l)) <=? 0)%Z with false by (symmetry; apply Z.leb_gt; cbn [List.length]; lia).
+  cbn [orb]. replace (Z.of_nat (List.length (a :: l)) <=? Z.of_nat (List.length (a :: l)) + -1)%Z with false
+    by (symmetry; apply Z.leb_gt; lia).
+  rewrite firstn_slice0. replace (Z.to_nat (Z.of_nat (List.length (a :: l)) + -1 - 0 + 1)) with (List.length (a :: l)) by lia.
+  rewrite firstn_all. reflexivity.
+Qed.
+
+Lemma lrange_none st k : getk st k = None -> redis_call st ["lrange"; k; "0"; "-1"] = (st, RArr []).
+Proof.
+  intros Hk. change (redis_call st ["lrange"; k; "0"; "-1"]) with (cmd_lrange st [k; "0"; "-1"]).
+  unfold cmd_lrange. change (parse_ll "0") with (Some 0%Z). change (parse_ll "-1") with (Some (-1)%Z).
+  rewrite (get_list_none _ _ Hk). reflexivity.
+Qed.
